@@ -257,6 +257,19 @@ func (x *Explorer) runFrom(b0 *cfg.Block, firstNode int, init *State) {
 		if len(n.b.Nodes) > 0 {
 			x.prune(states[0], n.b)
 		}
+		// the head of a range loop gives the key and value variables their next values (go/cfg lists the two
+		// identifiers once, in front of the loop): what was known about them belongs to the last iteration
+		if n.b.Kind == cfg.KindRangeLoop {
+			if rs, ok := n.b.Stmt.(*ast.RangeStmt); ok {
+				for _, e := range []ast.Expr{rs.Key, rs.Value} {
+					if e != nil && x.rangeDef[e] {
+						for _, st := range states {
+							x.assign(e, nil, rs, st)
+						}
+					}
+				}
+			}
+		}
 		start := 0
 		if first {
 			start = firstNode
@@ -594,6 +607,18 @@ func (x *Explorer) assign(lhs, rhs ast.Expr, stmt ast.Node, st *State) {
 				if k, ok := x.key(target); ok {
 					x.meta(k, target)
 					st.Facts[k] = constant.BoolVal(tv.Value)
+				}
+			}
+		}
+	}
+	// a local assigned an integer constant holds that constant until it is assigned again
+	if rhs != nil {
+		if id, ok := Unparen(lhs).(*ast.Ident); ok && id.Name != "_" {
+			if v, ok := ObjOf(x.Fn.Info(), id).(*types.Var); ok && !v.IsField() && v.Pkg() != nil && v.Parent() != v.Pkg().Scope() && !x.unstable[v] {
+				if tv, ok := x.Fn.Info().Types[rhs]; ok && tv.Value != nil && tv.Value.Kind() == constant.Int {
+					if as, isAs := stmt.(*ast.AssignStmt); !isAs || as.Tok == token.ASSIGN || as.Tok == token.DEFINE {
+						x.SetEq(id, tv.Value.ExactString(), st)
+					}
 				}
 			}
 		}
@@ -1001,6 +1026,50 @@ func (x *Explorer) constEq(e ast.Expr) (string, string, bool, bool) {
 	return reg, tv.Value.ExactString(), b.Op == token.NEQ, true
 }
 
+// constOrder decides `v < c`, `v >= c`, … for a variable known to hold an integer constant.
+func (x *Explorer) constOrder(b *ast.BinaryExpr, st *State) tri {
+	switch b.Op {
+	case token.LSS, token.LEQ, token.GTR, token.GEQ:
+	default:
+		return unknown
+	}
+	info := x.Fn.Info()
+	val := func(e ast.Expr) (int64, bool) {
+		e = Unparen(e)
+		if tv, ok := info.Types[e]; ok && tv.Value != nil && tv.Value.Kind() == constant.Int {
+			return constant.Int64Val(tv.Value)
+		}
+		if bl, ok := e.(*ast.BasicLit); ok && bl.Kind == token.INT { // (a probe built by a rule)
+			if n, err := strconv.ParseInt(bl.Value, 10, 64); err == nil {
+				return n, true
+			}
+		}
+		if k, ok := x.key(e); ok {
+			if cur, has := st.Regs["eq:"+k]; has {
+				if n, err := strconv.ParseInt(cur, 10, 64); err == nil {
+					return n, true
+				}
+			}
+		}
+		return 0, false
+	}
+	l, ok1 := val(b.X)
+	r, ok2 := val(b.Y)
+	if !ok1 || !ok2 {
+		return unknown
+	}
+	switch b.Op {
+	case token.LSS:
+		return fromBool(l < r)
+	case token.LEQ:
+		return fromBool(l <= r)
+	case token.GTR:
+		return fromBool(l > r)
+	default:
+		return fromBool(l >= r)
+	}
+}
+
 // Eval evaluates a condition under the facts of st.
 func (x *Explorer) Eval(e ast.Expr, st *State) tri {
 	e = Unparen(e)
@@ -1050,6 +1119,9 @@ func (x *Explorer) Eval(e ast.Expr, st *State) tri {
 				}
 				return t
 			}
+		}
+		if t := x.constOrder(b, st); t != unknown {
+			return t
 		}
 	}
 	k, negated, ok := x.atom(e)
